@@ -347,6 +347,9 @@ func (ch c16) runForced(c *core.Ctx, s c16sched, idx int) {
 	// wait clause: with a handler still held, no Close call may have returned... (asserted for all calls together)
 	if inflight && e.closeReturned.Load() {
 		viol("wait", "Close returned while a started handler was still inside its callback ("+s.State+")", "all Close calls returned although the harness still holds the handler parked")
+	} else if n := returned.Load(); inflight && n > 0 {
+		// ... and for each call on its own: the handler had started before any of the calls was made
+		viol("wait", "one of several Close calls returned while a handler that had started before it was called was still inside its callback ("+s.State+")", fmt.Sprintf("%d of %d Close calls have returned although the harness still holds the handler parked", n, s.Closers))
 	}
 	// a connection that is merely in the middle of reading a message has no started handler:
 	// Close must return although the client stalls (nothing is sent until it has)
